@@ -218,3 +218,30 @@ def write_evidence(prop: str, tier: str, level: str, coverage: dict, wall: float
     }
     with open(os.path.join(EVIDENCE, f'{prop}.json'), 'w') as f:
         json.dump(ev, f, indent=1, default=str)
+
+
+class CallTimeout(BaseException):
+    """raised by `time_limit` (BaseException so that library code does not swallow it)"""
+
+
+class time_limit:
+    """`with time_limit(2): …` — wall-clock guard for one call into the real code (regex
+    back-tracking blow-ups, runaway directory walks).  A timeout is never a verdict."""
+
+    def __init__(self, sec: int):
+        self.sec = sec
+
+    def __enter__(self):
+        import signal
+
+        def h(*_a):
+            raise CallTimeout()
+        self.old = signal.signal(signal.SIGALRM, h)
+        signal.alarm(self.sec)
+        return self
+
+    def __exit__(self, *exc):
+        import signal
+        signal.alarm(0)
+        signal.signal(signal.SIGALRM, self.old)
+        return False
